@@ -209,9 +209,23 @@ def cls_indices(ctx, r):
     """every combination of classes of any THREE components (the other three random); thorough: the full product"""
     sizes = [len(f) for f in CLS_FACTORS]
     if ctx.tier == "thorough":
-        for idx in itertools.product(*[range(n) for n in sizes]):
-            yield list(idx)
-        return
+        # the full product has 3.5 million members and every check that uses it held several copies of it in memory
+        # (47 GB for C03): the thorough tier walks the product with a stride that shares no factor with any class
+        # count, from a seed-dependent offset (about 300 000 members per run), after the triples of the quick tier
+        total = 1
+        for n in sizes:
+            total *= n
+        stride = max(1, total // 300000)
+        while stride > 1 and any(n % stride == 0 or stride % n == 0 for n in sizes if n > 1):
+            stride += 1
+        k = ctx.seed % stride
+        while k < total:
+            idx, x = [], k
+            for n in reversed(sizes):
+                idx.append(x % n)
+                x //= n
+            yield list(reversed(idx))
+            k += stride
     for tri in itertools.combinations(range(len(sizes)), 3):
         for combo in itertools.product(*[range(sizes[i]) for i in tri]):
             idx = [r.below(n) for n in sizes]
@@ -1183,11 +1197,13 @@ def st_cmp(ctx, n, shapes, label="cmp"):
 
 def st_scalars(positions, step=1, shapes=("S",), limit=0x110000):
     out = []
+    # every scalar value: in every position below U+3000, beyond that in one position each, in rotation (memory)
+    rotate = step == 1 and limit > 0x3000
     for cp in range(0, limit, step):
         if 0xD800 <= cp <= 0xDFFF:
             continue
         c = chr(cp)
-        for pos in positions:
+        for pos in (positions if not rotate or cp < 0x3000 else [positions[cp % len(positions)]]):
             for sh in shapes:
                 if pos == "name":
                     ty = hx("t") if sh != "P" else "NuGet"
